@@ -392,7 +392,8 @@ class AsyncInotifyWrapper:
                 if self.watches.get(path) is event.watch:
                     if event.mask & Mask.MOVE_SELF:
                         # A watch follows the directory to its new location: let go of it.
-                        self.inotify.rm_watch(event.watch)
+                        with contextlib.suppress(OSError):
+                            self.inotify.rm_watch(event.watch)
                     self.watches[path] = None
                     self.change_queue.put_nowait((Change.DELETED_PARENT, path))
                 continue
@@ -411,7 +412,10 @@ class AsyncInotifyWrapper:
                     # so we can check for it when the directory reappears.
                     watch = self.watches.get(path)
                     if watch is not None:
-                        self.inotify.rm_watch(watch)
+                        # The kernel drops the watch of a directory that is deleted,
+                        # and may have done so before this report of its parent is processed.
+                        with contextlib.suppress(OSError):
+                            self.inotify.rm_watch(watch)
                         self.watches[path] = None
                         self.change_queue.put_nowait((Change.DELETED_PARENT, path))
                 else:
